@@ -30,7 +30,7 @@ CURVES = ['UnitSquare', 'PiSquare', 'LShape', 'Circle', 'UnitInterval']
 def plan(tier, seed):
     specs = []
     for c in CURVES:
-        for k in range(3 if tier == 'quick' else 10):
+        for k in range(3 if tier == 'quick' else 24):
             specs.append({'name': 'mesh-%s-%d' % (c, k), 'curve': c, 'rseed': seed * 811 + k, 'n_ops': 14 + 8 * k if tier == 'quick' else 20 + 6 * k,
                           'n_hostile': 4000 if tier == 'quick' else 30000, 'n_est': 500 if tier == 'quick' else 4000,
                           'n_int': 6 if tier == 'quick' else 40, 'estimator': k == 0})
